@@ -41,6 +41,12 @@ func EndBlocker(ctx sdk.Context, k keeper.Keeper) {
 			k.CompleteServiceContext(ctx, requestContext, requestContextID)
 		}
 
+		// a context paused during its last batch is finished as well once that batch has expired
+		if requestContext.State == types.PAUSED && requestContext.Repeated &&
+			requestContext.RepeatedTotal > 0 && int64(requestContext.BatchCounter) >= requestContext.RepeatedTotal {
+			k.CompleteServiceContext(ctx, requestContext, requestContextID)
+		}
+
 		if requestContext.State == types.RUNNING {
 			if requestContext.Repeated && (requestContext.RepeatedTotal < 0 || int64(requestContext.BatchCounter) < requestContext.RepeatedTotal) {
 				k.AddNewRequestBatch(ctx, requestContextID, ctx.BlockHeight()-requestContext.Timeout+int64(requestContext.RepeatedFrequency))
